@@ -1,7 +1,119 @@
 import Driver.Util
-/-! Line-protocol driver for C12 (not built yet). -/
+import Lean.Data.Json
+import GqlgenVerif.Model.Stream
+import GqlgenVerif.Model.StreamGen
+open GqlgenVerif GqlgenVerif.Stream
 namespace Driver.C12
-def step (_line : String) : String := "bad-op"
+
+def opt : Option Bytes → String
+  | none => "~"
+  | some b => hex b
+
+def showItem : Item → String
+  | .comment t => "C" ++ hex t
+  | .event t d => "E" ++ opt t ++ "/" ++ opt d
+  | .junk l => "J" ++ hex l
+
+def joinLF : List Bytes → Bytes
+  | [] => []
+  | [x] => x
+  | x :: r => x ++ LF :: joinLF r
+
+def showMItem : MItem → String
+  | .part hs b => "P" ++ hex (joinLF hs) ++ "/" ++ hex b
+  | .close => "Z"
+  | .junk l => "J" ++ hex l
+
+def showList (xs : List String) (tail : Bool) : String :=
+  let ys := if tail then xs ++ ["R"] else xs
+  if ys.isEmpty then "-" else ",".intercalate ys
+
+def csv (s : String) : List String := if s = "-" then [] else s.splitOn ","
+
+def parsePayloads (s : String) : Option (List Bytes) := (csv s).mapM unhex
+
+def parseResps (s : String) : Option (List Resp) :=
+  (csv s).mapM fun t =>
+    match t.splitOn ":" with
+    | [h, "1"] => (unhex h).map fun b => ⟨b, true⟩
+    | [h, "0"] => (unhex h).map fun b => ⟨b, false⟩
+    | _ => none
+
+def parseSched (s : String) : Option (List Step) :=
+  if s = "-" then some [] else
+  s.toList.mapM fun c => if c = 'm' then some Step.main else if c = 't' then some Step.tick else none
+
+def toBA (b : Bytes) : ByteArray := ByteArray.mk (b.map (·.toUInt8)).toArray
+
+/-- second opinion on "valid JSON" (Lean's own parser) -/
+def jsonOK (b : Bytes) : Bool :=
+  match String.fromUTF8? (toBA b) with
+  | some s => (Lean.Json.parse s).isOk
+  | none => false
+
+def oneLine (b : Bytes) : Bool := !b.contains LF && !b.contains CR
+
+def isJunk : Item → Bool
+  | .junk _ => true
+  | _ => false
+
+def isMJunk : MItem → Bool
+  | .junk _ => true
+  | _ => false
+
+def sseVerdict (full : Bool) (ps : List Bytes) (raw : Bytes) : String :=
+  let r := parseSSE raw
+  let v :=
+    if !ps.all oneLine then "violates:payload-not-one-line"
+    else if !ps.all jsonOK then "violates:payload-not-json"
+    else if r.1.any isJunk then "violates:junk"
+    else if full && r.2 then "violates:incomplete-tail"
+    else if full then (if sseSpec ps r then "ok" else "violates:items")
+    else (if sseSpecPrefix ps r then "ok" else "violates:prefix-items")
+  v ++ " " ++ showList (r.1.map showItem) r.2
+
+def mpVerdict (full : Bool) (boundary : Bytes) (ps : List Resp) (raw : Bytes) : String :=
+  let r := parseMP boundary raw
+  let partsJson := r.1.all fun i => match i with
+    | .part _ b => jsonOK b
+    | _ => true
+  let v :=
+    if !ps.all (fun p => oneLine p.body && p.body.head? == some 0x7B) then "violates:payload-not-one-line"
+    else if !ps.all (fun p => jsonOK p.body) then "violates:payload-not-json"
+    else if r.1.any isMJunk then "violates:junk"
+    else if !partsJson then "violates:part-not-json"
+    else if full && r.2 then "violates:no-closing-delimiter"
+    else if full then (if mpSpec genMp ps r then "ok" else "violates:parts")
+    else (if mpSpecPrefix genMp ps r then "ok" else "violates:prefix-parts")
+  v ++ " " ++ showList (r.1.map showMItem) (r.2 && !full)
+
+/-- one line in, one line out -/
+def step (line : String) : String :=
+  match line.splitOn " " with
+  | ["sse", ka, ps, sched] =>
+    match parsePayloads ps, parseSched sched with
+    | some ps, some sched =>
+      let cs := sseChunks (ka != "0") ps sched
+      hex (chunksBytes genSse cs) ++ " " ++ showList (cs.map fun c => showItem c.item) false
+    | _, _ => "bad-op"
+  | ["ssechk", mode, ps, raw] =>
+    match parsePayloads ps, unhex raw with
+    | some ps, some raw => sseVerdict (mode == "full") ps raw
+    | _, _ => "bad-op"
+  | ["mp", b, ps, sched] =>
+    match unhex b, parseResps ps, parseSched sched with
+    | some b, some ps, some sched =>
+      let gs := mpGroups ps sched
+      let bytes := groupsBytes genMp b gs
+      let r := parseMP b bytes
+      hex bytes ++ " " ++ showList (r.1.map showMItem) false
+    | _, _, _ => "bad-op"
+  | ["mpchk", mode, b, ps, raw] =>
+    match unhex b, parseResps ps, unhex raw with
+    | some b, some ps, some raw => mpVerdict (mode == "full") b ps raw
+    | _, _, _ => "bad-op"
+  | _ => "bad-op"
+
 end Driver.C12
 
 def main : IO Unit := do
